@@ -1,7 +1,8 @@
 (* C13 — concurrent writers never tear messages on an interleaved connection.
-   Statements only; proofs in Proofs/WritersProofs.v. *)
+   Statements only; proofs in Proofs/WritersProofs.v and Proofs/C13PoolProofs.v (WebSocket half:
+   the pooled staging buffers, at the end of this file). *)
 From Coq Require Import ZArith List Bool.
-From V Require Import Bytes Writers WritersProofs.
+From V Require Import Bytes Writers WritersProofs C13Pool C13PoolProofs.
 Import ListNotations.
 Open Scope Z_scope.
 
@@ -65,3 +66,145 @@ Example C13_nonvacuous :
   let s := wrun true [false; true; false; false; false; true; true; true; true; false; false; false; false; false] (winit a b) in
   wfinished s = true /\ w_sink s = [36; 0; 0; 1; 9; 82; 13; 10; 36; 2; 0; 1; 8].
 Proof. vm_compute. auto. Qed.
+
+(* ================= WebSocket transports: one message = one pooled staging buffer =================
+   Model/C13Pool.v: any number of goroutines (request handlers, media goroutines, handshakes, of one
+   or several sessions, including sessions that ended earlier), each a program over Get / Write /
+   Send / Put on buffers taken from one shared pool; [sched] lists which goroutine moves next AND
+   which pooled buffer a Get hands out (sync.Pool promises no order), so the statements hold for
+   every interleaving and every behaviour of the pool.  [disciplined]: Get+Reset into a free
+   variable, every use and exactly one Put while the variable holds the buffer. *)
+Open Scope nat_scope.
+
+(* ownership: the pool never has an identity twice, a held buffer is not in the pool, and no buffer
+   is held by two goroutines (or through two variables) at the same time *)
+Theorem C13_pool_ownership : forall progs sched,
+  disciplined progs = true ->
+  let s := prun sched (pinit progs) in
+  NoDup (ps_pool s) /\
+  (forall t v b, holds s t v b -> ~ In b (ps_pool s)) /\
+  (forall t1 v1 t2 v2 b, holds s t1 v1 b -> holds s t2 v2 b -> t1 = t2 /\ v1 = v2).
+Proof. exact pool_ownership. Qed.
+Print Assumptions C13_pool_ownership.
+
+(* hence a held buffer contains exactly what its holder composed since the Get ... *)
+Theorem C13_pool_content_private : forall progs sched,
+  disciplined progs = true ->
+  let s := prun sched (pinit progs) in
+  forall t v b, holds s t v b -> ps_mem s b = p_want (ps_thr s t) v.
+Proof. exact pool_content_private. Qed.
+Print Assumptions C13_pool_content_private.
+
+(* ... every WebSocket message is byte for byte the message its sender composed (one complete
+   response or one complete interleaved frame, nothing of anybody else's) ... *)
+Theorem C13_pool_messages_exact : forall progs sched,
+  disciplined progs = true -> ps_out (prun sched (pinit progs)) = ps_int (prun sched (pinit progs)).
+Proof. exact pool_messages_exact. Qed.
+Print Assumptions C13_pool_messages_exact.
+
+(* ... and per connection the messages are an order-preserving interleaving of the whole messages the
+   program texts say: each sender's messages so far are a prefix of its intended list, all of it
+   when the goroutine is done *)
+Theorem C13_pool_sender_order : forall progs sched,
+  disciplined progs = true ->
+  let s := prun sched (pinit progs) in
+  forall t k, exists rest, sent_by k t (ps_out s) ++ rest = intended k (nth t progs []).
+Proof. exact pool_sender_order. Qed.
+Print Assumptions C13_pool_sender_order.
+
+Theorem C13_pool_sender_complete : forall progs sched,
+  disciplined progs = true ->
+  let s := prun sched (pinit progs) in
+  forall t k, p_prog (ps_thr s t) = [] -> sent_by k t (ps_out s) = intended k (nth t progs []).
+Proof. exact pool_sender_complete. Qed.
+Print Assumptions C13_pool_sender_complete.
+
+(* the oracle applied to the implementation (messages read by a WebSocket client per connection, and
+   the pool drained after the history) accepts the model *)
+Theorem C13_model_passes_pool : forall progs sched conns,
+  disciplined progs = true ->
+  let s := prun sched (pinit progs) in
+  pfinished (length progs) s = true ->
+  ok_pool progs (pobserve conns s) (ps_pool s) = true.
+Proof. exact pool_model_passes. Qed.
+Print Assumptions C13_model_passes_pool.
+
+(* link to the TCP half: media goroutine and request goroutine of one ws-rtsp session — the messages
+   are a Writers.merge of the frames and the responses (whole, not spliced) and the bytes under the
+   WebSocket pass the byte-level oracle ok_sink *)
+Theorem C13_pool_two_writers : forall pa pb sched k,
+  disciplined [pa; pb] = true ->
+  let s := prun sched (pinit [pa; pb]) in
+  pfinished 2 s = true ->
+  merge (tag false (as_msgs (intended k pa))) (tag true (as_msgs (intended k pb))) (tagb (on_conn k (ps_out s))) /\
+  ok_sink (length (intended k pa) + length (intended k pb)) (intended k pa) (intended k pb)
+          (concat (map snd (on_conn k (ps_out s)))) = true.
+Proof. exact pool_two_writers. Qed.
+Print Assumptions C13_pool_two_writers.
+
+(* what the discipline is for — computed schedules.  A second Put (after the response and again by
+   the deferred Put of an earlier session): the identity is in the pool twice, the media goroutine
+   and the request goroutine hold it at the same time, the data channel carries response text
+   followed by the frame's payload *)
+Theorem C13_pool_double_put_refuted :
+  disciplined double_put_progs = false /\
+  let mid := prun (firstn 8 double_put_sched) (pinit double_put_progs) in
+  let s := prun double_put_sched (pinit double_put_progs) in
+  ps_pool (prun (firstn 5 double_put_sched) (pinit double_put_progs)) = [0; 0] /\
+  p_held (ps_thr mid 1) = [(0, 0)] /\ p_held (ps_thr mid 2) = [(0, 0)] /\
+  pfinished 3 s = true /\
+  map snd (on_conn 1 (ps_out s)) = [resp_txt ++ frame_pay] /\
+  intended 1 (nth 1 double_put_progs []) = [frame_pfx ++ frame_pay] /\
+  ok_pool double_put_progs (pobserve [0; 1] s) (ps_pool s) = false.
+Proof. exact double_put_refuted. Qed.
+Print Assumptions C13_pool_double_put_refuted.
+
+(* ... and under a schedule that corrupts no message the drained pool still shows it *)
+Theorem C13_pool_double_put_probe_refuted :
+  let sched := [(0,0);(0,0);(0,0);(0,0);(0,0); (1,0);(1,0);(1,0);(1,0);(1,0); (2,0);(2,0);(2,0);(2,0)] in
+  let s := prun sched (pinit double_put_progs) in
+  pfinished 3 s = true /\ ps_out s = ps_int s /\ nodupb (ps_pool s) = false.
+Proof. exact double_put_probe_refuted. Qed.
+Print Assumptions C13_pool_double_put_probe_refuted.
+
+(* Put before the WebSocket write has completed *)
+Theorem C13_pool_use_after_put_refuted :
+  let sched := [(0,0);(0,0);(0,0);(0,0); (1,0);(1,0);(1,0); (0,0); (1,0)] in
+  let s := prun sched (pinit use_after_put_progs) in
+  disciplined use_after_put_progs = false /\ pfinished 2 s = true /\
+  map snd (on_conn 1 (ps_out s)) = [resp_txt] /\
+  ok_pool use_after_put_progs (pobserve [0; 1] s) (ps_pool s) = false.
+Proof. exact use_after_put_refuted. Qed.
+Print Assumptions C13_pool_use_after_put_refuted.
+
+(* no Reset after Get *)
+Theorem C13_pool_no_reset_refuted :
+  let sched := [(0,0);(0,0);(0,0);(0,0); (1,0);(1,0);(1,0);(1,0);(1,0)] in
+  let s := prun sched (pinit no_reset_progs) in
+  disciplined no_reset_progs = false /\ pfinished 2 s = true /\
+  map snd (on_conn 1 (ps_out s)) = [resp_txt ++ frame_pfx ++ frame_pay] /\
+  ok_pool no_reset_progs (pobserve [0; 1] s) (ps_pool s) = false.
+Proof. exact no_reset_refuted. Qed.
+Print Assumptions C13_pool_no_reset_refuted.
+
+(* one package-level buffer instead of the pool *)
+Theorem C13_pool_shared_buffer_refuted :
+  let sched := [(0,0);(0,0); (1,0);(1,0);(1,0); (0,0);(0,0)] in
+  let s := prun sched (pinit shared_buffer_progs) in
+  disciplined shared_buffer_progs = false /\ pfinished 2 s = true /\
+  map snd (on_conn 1 (ps_out s)) = [resp_txt ++ frame_pay] /\
+  ok_pool shared_buffer_progs (pobserve [0; 1] s) (ps_pool s) = false.
+Proof. exact shared_buffer_refuted. Qed.
+Print Assumptions C13_pool_shared_buffer_refuted.
+
+(* non-vacuity: Session.process as it is (one buffer per request, Puts deferred to the end), an
+   earlier session, a media goroutine; the pool asked for a position it does not have *)
+Example C13_pool_nonvacuous :
+  let sched := [(0,0);(0,0);(0,0);(0,0); (1,0);(1,0); (2,0);(2,0);(2,0); (1,0);(1,0);(1,0); (2,5);(2,0);(2,0);
+                (1,0);(1,0);(1,0);(1,0);(1,0); (2,0);(2,0)] in
+  let s := prun sched (pinit good_progs) in
+  disciplined good_progs = true /\ pfinished 3 s = true /\
+  map snd (on_conn 1 (ps_out s)) = [frame_pfx ++ frame_pay; frame_pfx ++ [9; 9]%Z] /\
+  map snd (on_conn 0 (ps_out s)) = [resp_txt; resp_txt; [79; 75]%Z] /\
+  ok_pool good_progs (pobserve [0; 1] s) (ps_pool s) = true.
+Proof. exact good_progs_run. Qed.
